@@ -4,11 +4,11 @@ from typing import Sequence
 
 import jax
 import numpy as np
-from distreqx import distributions
 from jax import numpy as jnp
 from jaxtyping import Array, ArrayLike, Bool, Float, Integer, Key
 
 from .base_distribution import AbstractMaskableDistribution
+from .categorical import Categorical
 
 
 class MultiCategorical(
@@ -26,7 +26,7 @@ class MultiCategorical(
 
     """
 
-    distribution: tuple[distributions.Categorical, ...]
+    distribution: tuple[Categorical, ...]
     action_dims: tuple[int, ...]
 
     def __init__(
@@ -61,14 +61,14 @@ class MultiCategorical(
             )
             self.action_dims = inferred_dims
             self.distribution = tuple(
-                distributions.Categorical(logits=piece) for piece in pieces
+                Categorical(logits=piece) for piece in pieces
             )
         else:
             assert probs is not None
             pieces, inferred_dims = self._split_or_unpack_params(probs, action_dims_tup)
             self.action_dims = inferred_dims
             self.distribution = tuple(
-                distributions.Categorical(probs=piece) for piece in pieces
+                Categorical(probs=piece) for piece in pieces
             )
 
     @staticmethod
